@@ -313,6 +313,10 @@ def patch_recv():
     _recv_patched = True
 
 
+class SessionHang(RuntimeError):
+    """The server thread is stuck (blocked on a lock it can never get, or spinning outside Python-level calls)."""
+
+
 class StepBudgetExceeded(BaseException):
     """Raised inside the server thread (from the profile hook) when it exceeds its hard step cap: a hang made finite."""
 
@@ -326,7 +330,8 @@ class Session:
     runner:       run through network.server_thread(...).run(), the production per-connection wrapper."""
 
     def __init__(self, sim, addr=("127.0.0.1", 10001), name=None, enip_process=None, count_steps=False, step_cap=None,
-                 runner=False):
+                 runner=False, wait_timeout=60):
+        self.wait_timeout = wait_timeout
         patch_recv()
         self.sim = sim
         self.addr = addr
@@ -367,8 +372,8 @@ class Session:
         self._wait()
 
     def _wait(self):
-        if not self.conn.to_harness.acquire(timeout=60):
-            raise RuntimeError("server thread did not park within 60 s (hang)")
+        if not self.conn.to_harness.acquire(timeout=self.wait_timeout):
+            raise SessionHang("server thread neither asked for input nor ended within %d s" % self.wait_timeout)
 
     @property
     def alive(self):
